@@ -209,6 +209,9 @@ def gen(ctx, seed, tier):
     cases += coll[:(400 if thorough else 60)]
     # relation Z: two different files compared by a process whose descriptor 0 is closed (the first open returns 0)
     cases += [c.replace(" C ", " Z ", 1) for c in coll[:(200 if thorough else 40)]]
+    # relation U: two different files that the caller may read but does not OWN (the call is made in a child that has
+    # given up root for uid 65534; when the check does not run as root the relation is D)
+    cases += [c.replace(" C ", " U ", 1) for c in coll[40:(240 if thorough else 70)]]
     # T: all kinds
     for k in ["R", "D", "LR", "LD", "LX", "F", "S", "C", "M"]:
         for size in ([0, 1, 4096, 4097, 100000] if k in ("R", "LR") else [0]):
@@ -261,7 +264,7 @@ def run_model(ctx, cases):
     # N cases: zix_canonical_path is outside the Coq models; its oracle is realpath(3), evaluated by the C driver on the
     # same path, so the expected line is a constant
     # relation C is relation D for the model: the two are different files
-    rest = [c.replace(" C ", " D ", 1).replace(" Z ", " D ", 1) if c.startswith("E ") else c for c in cases if not c.startswith("N ")]
+    rest = [c.replace(" C ", " D ", 1).replace(" Z ", " D ", 1).replace(" U ", " D ", 1) if c.startswith("E ") else c for c in cases if not c.startswith("N ")]
     ms, ss = ctx.run_model("drv_c15", rest, timeout=1500) if rest else ([], [])
     ms, ss = iter(ms), iter(ss)
     M, S = [], []
